@@ -46,7 +46,7 @@ def from_callback_(
                     else:
                         observer.on_next(results)
 
-                    observer.on_completed()
+                observer.on_completed()
 
             func(*arguments, handler)
             return Disposable()
